@@ -352,6 +352,13 @@ func timedOracle(name string, check func(cScenario, cResult) (string, string)) f
 				if late > 0 {
 					res.fail(Failure{Oracle: name, Input: line, What: what, Class: "read-after-close"})
 				}
+				fline := fmt.Sprintf("flood v6=%v T=50ms n=2", v6)
+				cliNoteLine(fline)
+				res.Evaluations++
+				res.Tags["saturated-stream"]++
+				if w := cliFloodProbe(v6); w != "" {
+					res.fail(Failure{Oracle: name, Input: fline, What: w, Class: "call-outlasts-schedule-under-flood"})
+				}
 			}
 		}
 		if thorough {
